@@ -47,7 +47,7 @@ class C09(Prop):
     rule = ("malformed stream: literal corpus (commands lacking operands, arcs/relative/smooth commands with no current point, bad flags, "
             "stray/non-ASCII/control characters, overflowing literals, long inputs up to 4000 commands); conforming renderings "
             "truncated at every (quick: random) position; 1-4 random character/token edits of conforming strings; random noise over the "
-            "path alphabet; exhaustive strings up to length 3 (quick) / 5 (thorough) over a 16-character alphabet. Observed: exception "
+            "path alphabet; exhaustive strings up to length 3 (quick) / 4 (thorough) over a 16-character alphabet. Observed: exception "
             "class, wall time, retained segments (compared with the Lean model of the lexical parser), then d(), d(relative=True), "
             "bbox(), length(), abs(p*M) on the retained path. non-trivial = at least one segment retained or an exception raised")
     trusted_base = [
@@ -59,7 +59,7 @@ class C09(Prop):
     def cases(self, rng, tier):
         for s in CORPUS:
             yield {"k": "lit", "d": s}
-        maxlen = 3 if tier == "quick" else 5
+        maxlen = 3 if tier == "quick" else 4
         for n in range(1, maxlen + 1):
             for tup in itertools.product(ALPHA, repeat=n):
                 yield {"k": "short", "d": "".join(tup)}
